@@ -179,6 +179,9 @@ class G:
             tg = getattr(ops, "H" if self.name == "SNOT" else self.name)
             return ops.ControlledGate(controls=list(self.c), targets=list(self.t), control_value=self.cv, target_gate=tg, **kw)
         cls = getattr(ops, self.via)
+        if self.user:
+            # an instance of the library class whose name the user table shadows: T(targets=[0]), RX(targets=[1], arg_value=a)
+            return cls(targets=list(self.t), arg_value=self.arg)
         kw = {} if av is None else {"arg_value": av}
         if self.c:
             return cls(controls=list(self.c), targets=list(self.t), **kw)
@@ -228,9 +231,42 @@ def enc_ops(gs):
     return "@".join(g.enc() for g in gs) if gs else "-"
 
 
+class UTable(list):
+    """user-gate table + how it meets the gates: "normal" = given to the constructor before the gates are added;
+    "late" = the gates are added first (library names then give library-class objects), the definitions are registered
+    afterwards (`qc.user_gates[name] = ...`); "transfer" = the gates are created in another, table-less circuit and
+    handed over with `add_gates(other.gates)`.  The defining matrix of a gate is what `user_gates` says for its name at
+    the time of the run in all three."""
+    mode = "normal"
+
+    def __init__(self, it=(), mode="normal"):
+        super().__init__(it)
+        self.mode = mode
+
+
+def table_mode(ugs):
+    return getattr(ugs, "mode", "normal")
+
+
 def build_circuit(N, gates, ugs=()):
     from qutip_qip.circuit import QubitCircuit
-    qc = QubitCircuit(N, user_gates={u.name: u.pyobj() for u in ugs}) if ugs else QubitCircuit(N)
+    table = {u.name: u.pyobj() for u in ugs}
+    mode = table_mode(ugs) if ugs else "normal"
+    if mode == "late":
+        qc = QubitCircuit(N)
+        for g in gates:
+            add_to_circuit(qc, g)
+        for name, obj in table.items():
+            qc.user_gates[name] = obj
+        return qc
+    if mode == "transfer":
+        donor = QubitCircuit(N)
+        for g in gates:
+            add_to_circuit(donor, g)
+        qc = QubitCircuit(N, user_gates=table)
+        qc.add_gates(donor.gates)
+        return qc
+    qc = QubitCircuit(N, user_gates=table) if ugs else QubitCircuit(N)
     for g in gates:
         add_to_circuit(qc, g)
     return qc
@@ -530,16 +566,46 @@ def angle_sweep(angles=None, all_positions=True):
     return ws
 
 
+SHADOW = {"X": 1, "T": 1, "S": 1, "RX": 1, "SWAP": 2}      # user-gate names that shadow a library gate (arity of its class)
+
+
 def random_user_table(rng):
-    ugs = []
-    names = ["UA", "UB", "UC", "X"]
+    names = ["UA", "UB", "UC"] + rng.sample(sorted(SHADOW), 2)
     rng.shuffle(names)
+    ugs = UTable(mode=rng.choice(["normal", "normal", "normal", "late", "transfer"]))
     for name in names[:rng.randint(1, 3)]:
-        m = 1 if name == "X" else rng.choice([1, 1, 2, 2, 3])     # "X" shadows the library gate
+        m = SHADOW[name] if name in SHADOW else rng.choice([1, 1, 2, 2, 3])
         kind = rng.choice(["oper", "fn0", "fn1"])
         mat = [[rand_scalar(rng) for _ in range(2 ** m)] for _ in range(2 ** m)]
         ugs.append(UG(name, kind, m, mat))
     return ugs
+
+
+def shadow_circuits():
+    """a user gate that SHADOWS a library name (X T S RX SWAP), as stored operator / 0- / 1-parameter function, added by
+    name or as an instance of the library class of that name, with the table registered before the adds, after them,
+    or the gates taken over from another circuit: [SNOT, shadow, CNOT, shadow'] on 2 qubits"""
+    out = []
+    one = (0, [1, 0, 0, 0, 0, 0, 0, 0])
+    zero = (0, [0] * 8)
+    for name, m in sorted(SHADOW.items()):
+        for kind in ("oper", "fn0", "fn1"):
+            # a matrix that is neither the library's nor symmetric: [[1, 2], [0, i]] (x) ...
+            base = [[one, (0, [2, 0, 0, 0, 0, 0, 0, 0])], [zero, (0, [0, 0, 0, 0, 1, 0, 0, 0])]]
+            if m == 1:
+                mat = base
+            else:
+                mat = [[zero] * 4 for _ in range(4)]
+                for i, v in enumerate([one, (0, [0, 0, 0, 0, 1, 0, 0, 0]), (0, [3, 0, 0, 0, 0, 0, 0, 0]), (1, [1, 0, 0, 0, 0, 0, 0, 0])]):
+                    mat[i][(i + 1) % 4] = v
+            for via in (None, name):
+                for mode in ("normal", "late", "transfer"):
+                    arg = (lambda a: a if kind == "fn1" else None)
+                    t1, t2 = ([0], [1]) if m == 1 else ([1, 0], [0, 1])
+                    gates = [G("SNOT", [0], []), G(name, t1, [], user=True, arg=arg(2), via=via),
+                             G("CNOT", [1], [0]), G(name, t2, [], user=True, arg=arg(-3), via=via)]
+                    out.append((2, gates, UTable([UG(name, kind, m, mat)], mode=mode)))
+    return out
 
 
 def random_gate_list(rng, N, L, ugs):
@@ -550,7 +616,8 @@ def random_gate_list(rng, N, L, ugs):
         if usable and rng.random() < 0.4:
             u = rng.choice(usable)
             gates.append(G(u.name, rng.sample(range(N), u.m), [], user=True,
-                           arg=(rng.randint(-3, 3) if u.kind == "fn1" else None)))
+                           arg=(rng.randint(-3, 3) if u.kind == "fn1" else None),
+                           via=(u.name if u.name in SHADOW and rng.random() < 0.5 else None)))
         else:
             g = random_exact_gate(rng, N)
             # a library name shadowed by the user table resolves to the user matrix: keep arities consistent
@@ -822,7 +889,10 @@ class C01(PropertyCheck):
 
     def _compare_case(self, ctx, res, N, gates, ugs, tags, paths, ket, rho, oper, names, answers, with_oracle=True):
         inp = {"N": N, "gates": [g.js() for g in gates], "ug": [[u.name, u.kind, u.m] for u in ugs], "ket": enc_vec(ket)[:80]}
-        witness = {"kind": "circuit", "N": N, "gates": [g.js() for g in gates], "ug": [u.js() for u in ugs]}
+        if ugs:
+            inp["mode"] = table_mode(ugs)
+        witness = {"kind": "circuit", "N": N, "gates": [g.js() for g in gates], "ug": [u.js() for u in ugs],
+                   "mode": table_mode(ugs)}
         nontrivial = len(gates) >= 2 or any(g.qubits() != list(range(len(g.qubits()))) for g in gates)
         impl, qc = self._impl_paths(N, gates, ugs, ket, rho, oper, paths)
         if "build" in impl:
@@ -1081,6 +1151,13 @@ class C01(PropertyCheck):
         self._exact_batch(ctx, res, [(2, [a, b], [], ["pair", "N=2", "same-name-objects"], None) for a in pobj for b in pobj])
         res.notes.append(f"exhaustive: every ordered pair of placed objects of the classes CX CY CS CT CRX CRY CRZ on 2 qubits "
                          f"({len(pobj) ** 2} pairs; the objects share .name and arg_value), all paths")
+        # user gates shadowing library names: by name / as class instance, table registered before / after / gates transferred
+        sc = shadow_circuits()
+        self._exact_batch(ctx, res, [(N, gs, ugs, ["shadow", "mode=" + ugs.mode, "instance" if gs[1].via else "by-name",
+                                                   "kind=" + ugs[0].kind], None) for N, gs, ugs in sc])
+        res.notes.append(f"exhaustive: user gate shadowing a library name ({', '.join(sorted(SHADOW))}) x (oper, fn0, fn1) x (added by "
+                         f"name, instance of the library class) x (table before the adds, after them, gates taken from another "
+                         f"circuit): {len(sc)} circuits, all paths")
         # GLOBALPHASE after a gate / consecutive phases, stepped with the trajectory kept
         pa = phase_after_circuits()
         self._exact_batch(ctx, res, [(N, gs, [], ["phase-after", f"N={N}"], {"ket", "ket_steps", "oper_steps", "dm_steps"})
@@ -1115,7 +1192,7 @@ class C01(PropertyCheck):
             paths = None if N <= 4 else {"ket", "ket2nd", "ket_steps", "dm", "unitary", "prod_ltr", "compact", "props0", "dmket"}
             if N == 6:
                 paths = {"ket", "ket_steps", "dm", "unitary", "compact"}
-            self._exact_case(ctx, res, N, gates, ugs, ["random", f"N={N}", f"len={len(gates)}", "ug" if ugs else "noug"],
+            self._exact_case(ctx, res, N, gates, ugs, ["random", f"N={N}", f"len={len(gates)}", ("ug-" + table_mode(ugs)) if ugs else "noug"],
                              paths=paths)
         ctx.log(f"  random done at {time.time() - t0:.1f}s")
         # 4. parametric circuits: oracle only
@@ -1294,7 +1371,7 @@ class C01(PropertyCheck):
         gates = [G.from_js(j) for j in w["gates"]]
         if w["kind"] == "compact":
             return self._oracle_compact(w["N"], gates, ctx.rng)
-        ugs = [UG(*u) for u in w.get("ug", [])]
+        ugs = UTable([UG(*u) for u in w.get("ug", [])], mode=w.get("mode", "normal"))
         if w["kind"] == "meas":
             return self._oracle_meas(w["N"], gates, ugs, w["meas"])
         return self._oracle_circuit(w["N"], gates, ugs, ctx.rng)
@@ -1333,6 +1410,8 @@ class C01(PropertyCheck):
         systematic += [{"kind": "circuit", "N": 2, "gates": [a.js(), b.js()], "ug": []} for a in pobj for b in pobj]
         systematic += [{"kind": "circuit", "N": N, "gates": [g.js() for g in gs], "ug": []} for N, gs in phase_after_circuits()
                        if N <= 2]
+        systematic += [{"kind": "circuit", "N": N, "gates": [g.js() for g in gs], "ug": [u.js() for u in ugs], "mode": ugs.mode}
+                       for N, gs, ugs in shadow_circuits()]
         systematic += self._controlled_witnesses()
         systematic += angle_sweep()
         systematic += [{"kind": "circuit", "N": 3, "gates": [g.js()], "ug": []} for g in placed_gates(3, objects=True)]
@@ -1353,6 +1432,10 @@ class C01(PropertyCheck):
               {"kind": "compact", "N": 9, "gates": [G("X", [4], []).js()] + [G("IDLE", [q], []).js() for q in range(9) if q != 4]
                + [G("CNOT", [4], [8]).js()]}]
         ws.append({"kind": "circuit", "N": 2, "gates": [G("X", [1], []).js(), G("SNOT", [1], []).js()], "ug": []})
+        # user gates shadowing a library name: instance of the library class / registered after the add / transferred
+        sc = shadow_circuits()
+        for N_, gs, ugs in (sc[1], sc[4], sc[5], sc[6 * 9 + 4], sc[6 * 12 + 2]):
+            ws.append({"kind": "circuit", "N": N_, "gates": [g.js() for g in gs], "ug": [u.js() for u in ugs], "mode": ugs.mode})
         # a phase step after a gate, consecutive phase steps: the kept trajectory must not change
         Pg = lambda p8: G("GLOBALPHASE", [], [], p8=p8).js()
         ws.append({"kind": "circuit", "N": 1, "ug": [], "gates": [G("X", [0], []).js(), Pg(4), Pg(3)]})
